@@ -259,6 +259,11 @@ def make_triples(ctx: Ctx, big: bool, focus_jobs=(), extended=False):
                 triples.append({"id": "%s/env%d/random%d" % (job, variant, p), "job": job, "env": env_json(variant),
                                 "plan": lines, "api": (k % 4 == 0)})
                 k += 1
+        # every skill once from the initial state (zero stacks, nothing running: the branches a long random plan rarely revisits), twice
+        names = list(simenv.skill_names(job, 0))
+        each = ['USE "%s"' % n for n in names] + ["ELAPSE 1000"] + ['USE "%s"' % n for n in names] + ["ELAPSE 30000"] + \
+               ['CAST "%s"' % n for n in names[: 12]]
+        triples.append({"id": "%s/env0/each-skill" % job, "job": job, "env": env_json(0), "plan": each, "api": False})
         lines, text = shipped_plan_lines(job)
         if lines:
             for variant in ((0, 1, 2) if big else (2,)):
